@@ -23,7 +23,7 @@ func init() {
 			"LIVE every call that can block forever inside a thread-group member (Accept, ReadFromUDP, reads/writes on an accepted connection, Serve) has an unblocker (Close of the same object in an OnStop function, a deadline set on " +
 			"every path before it, or Shutdown with a bounded context) so Stop() returns; LOCK-5 no network call under a server lock. " +
 			"Obligations whose index/length terms are tainted only by third-party service responses (WattTime, NASA) are reported as notes, as are bounds checks inside the weekly-statistics codec that need a product invariant (they are decided by C15's size rule). " +
-			"LOCK-1/2/3 (shared with C13) no path leaves a server mutex held, re-acquires it, or nests the two mutexes in both orders: a leaked or cyclic lock wedges every later request. KEYSET pairing of the sibling maps is re-run (the non-nil argument rests on it). NOT decided: resource exhaustion (goroutine/memory growth), kernel behaviour, request latency, implicit panics inside dependencies.",
+			"LOCK-1/2/3 (shared with C13) no path leaves a server mutex held, re-acquires it, or nests the two mutexes in both orders: a leaked or cyclic lock wedges every later request. KEYSET pairing of the sibling maps is re-run (the non-nil argument rests on it). The cadence rules of C20 are re-run (catch-up and rotation guards compare clock and offset without wrap-around, so start-up terminates for a clock behind the offset). NOT decided: resource exhaustion (goroutine/memory growth), kernel behaviour, request latency, implicit panics inside dependencies.",
 		Assumptions: append([]string{
 			"domain axioms (printed with each use): timeslot values are < 2^31; in-memory object lengths are < 2^56 (64-bit) / 2^30 (32-bit)",
 			"library postconditions from godoc: io.ReadFull err==nil => n==len(buf); csv.Reader.Read err==nil => at least one field; crypto.Sign returns 65 bytes; CompressPubkey returns 33 bytes; sort.Slice calls less with indices in range; crypto/rand.Int returns a value in [0,max); runtime.Stack returns n <= len(buf)",
@@ -188,6 +188,10 @@ func runC12(c *an.Ctx) {
 			c.Proved("LOCK-5", nil, 0, "noblock:"+lock, "no network/sleep call while "+lock+" is held", "effect summaries of all callees under the lock")
 		}
 	}
+	// the start-up catch-up and the rotation loop terminate / trigger by comparing the clock with the window offset
+	// without wrap-around (a clock behind the persisted offset must not make the catch-up loop run forever: start-up
+	// would never finish); rules owned by C20, re-run
+	cadence(c)
 }
 
 // archiveIndexLemma: history[(tso - origin)/2016] under the fact tso < offset,
